@@ -25,7 +25,8 @@ import (
 
 var (
 	verifDir = envOr("VERIF_DIR", "/verif")
-	binDir   = filepath.Join(verifDir, "bin")
+	binDir   = envOr("VERIF_BIN", filepath.Join(verifDir, "bin"))
+	outDir   = envOr("VERIF_OUT", verifDir)
 )
 
 func envOr(k, d string) string {
@@ -529,7 +530,7 @@ func (r *replayFile) plan() *kernel.Plan {
 }
 
 func writeReplay(prop string, seed uint64, v *kernel.Violation, p *kernel.Plan, out planOutcome, orig int) string {
-	dir := filepath.Join(verifDir, "replays", prop)
+	dir := filepath.Join(outDir, "replays", prop)
 	_ = os.MkdirAll(dir, 0o755)
 	name := fmt.Sprintf("%d-%s.json", seed, sanitize(v.Oracle+"-"+v.Fingerprint))
 	path := filepath.Join(dir, name)
@@ -817,9 +818,9 @@ func doCheck(prop, tier string) int {
 		cov["samples"] = []interface{}{map[string]interface{}{"note": "no violation-free non-trivial run in this batch to sample"}}
 	}
 	ev := evidence{PropertyID: prop, Tier: tier, Seed: seed, Level: pi.Level, Coverage: cov, Assumptions: pi.Assumptions, WallS: wall, Violations: nviol}
-	_ = os.MkdirAll(filepath.Join(verifDir, "evidence"), 0o755)
+	_ = os.MkdirAll(filepath.Join(outDir, "evidence"), 0o755)
 	eb, _ := json.MarshalIndent(ev, "", " ")
-	if err := os.WriteFile(filepath.Join(verifDir, "evidence", prop+".json"), eb, 0o644); err != nil {
+	if err := os.WriteFile(filepath.Join(outDir, "evidence", prop+".json"), eb, 0o644); err != nil {
 		harnessFail("cannot write evidence: %v", err)
 	}
 	fmt.Printf("%s %s: %d runs (%d distinct non-trivial traces, %d state digests) in %.1fs; %d violation classes; faults fired %v\n",
